@@ -12,7 +12,15 @@ export VERIF_SCRATCH="${VERIF_SCRATCH:-/var/tmp/verif.$ID.$$}"
 mkdir -p "$VERIF_SCRATCH/bin"
 cleanup() { if [ -z "${VERIF_KEEP:-}" ]; then chmod -R u+rwx "$VERIF_SCRATCH" 2>/dev/null; rm -rf "$VERIF_SCRATCH"; fi; }
 trap cleanup EXIT
-if ! go build -tags verif -o "$VERIF_SCRATCH/bin/vp" ./cmd/vp 2>"$VERIF_SCRATCH/build.err"; then
+MODFLAG=""
+if [ -n "${VERIF_REPO:-}" ] && [ "$VERIF_REPO" != /repo ]; then
+  # validation runs against a scratch worktree of the repository (mutants): same driver sources,
+  # replace directive redirected through an alternate go.mod
+  sed "s|=> /repo|=> $VERIF_REPO|" go.mod > "$VERIF_SCRATCH/alt.mod"; cp go.sum "$VERIF_SCRATCH/alt.sum"
+  MODFLAG="-modfile=$VERIF_SCRATCH/alt.mod"
+  export VERIF_REPO
+fi
+if ! go build $MODFLAG -tags verif -o "$VERIF_SCRATCH/bin/vp" ./cmd/vp 2>"$VERIF_SCRATCH/build.err"; then
   echo "MACHINERY-FAILURE property=$ID driver does not build against /repo:"; cat "$VERIF_SCRATCH/build.err"
   exit 2
 fi
